@@ -140,6 +140,40 @@ func propC16(c *Ctx) {
 		c.Violation("R16.2", "identity-names", arf.Pos(), fmt.Sprintf("only %d identity names recognised", len(names)))
 	}
 	checkRequiredFieldsIndependent(c, "R16.2")
+	// the element-index and log-index columns are decided from Event.Selected() (which recurses into tuple
+	// components): a selection on a nested component of a tuple array yields one row per element too
+	{
+		okAbi, okLog := false, false
+		for _, ci := range callsIn(arf) {
+			isAdd := false
+			for _, cal := range res.Callees(ci) {
+				if cal.Parent() == arf && len(ci.Common().Args) == 2 {
+					isAdd = true
+				}
+			}
+			if !isAdd {
+				continue
+			}
+			name, _ := constString(ci.Common().Args[0])
+			switch name {
+			case "abi_idx":
+				for _, col := range loopCollections(ci) {
+					if isSelectedOf(col) {
+						okAbi = true
+					}
+				}
+			case "log_idx":
+				sel, _ := cmpEdges(arf, func(b *ssa.BinOp) bool {
+					arg, ok := lenArg(b.X)
+					n, okc := constInt(b.Y)
+					return b.Op == token.GTR && ok && okc && n == 0 && isSelectedOf(arg)
+				})
+				okLog = guardedByEdges(arf, ci, sel)
+			}
+		}
+		c.Check("R16.2", "AddRequiredFields/abi_idx-from-Selected()", arf.Pos(), okAbi, "abi_idx is added when any input returned by Event.Selected() is not indexed")
+		c.Check("R16.2", "AddRequiredFields/log_idx-from-Selected()", arf.Pos(), okLog, "log_idx is added when Event.Selected() is not empty")
+	}
 	// AddUniqueIndex: user-supplied key wins; otherwise the present candidates form one key
 	{
 		fUnique := w.Field("wpg", "Table", "Unique")
@@ -383,6 +417,28 @@ func propC16(c *Ctx) {
 			}
 		})
 		c.Check("R16.4", "Diff/Add=wanted-columns-not-in-catalogue", diff.Pos(), okAdd, "Diff.Add collects elements of the wanted column list")
+		// config.Migrate migrates the table of EVERY integration (a shared table needs each integration's columns)
+		cm := w.Fn("shovel/config", "Migrate")
+		okAll := false
+		for _, call := range callsToFn(cm, mg) {
+			cols := loopCollections(call)
+			overIgs := false
+			for _, col := range cols {
+				if _, ch := fieldChain(col); len(ch) > 0 && ch[len(ch)-1] == fIgs {
+					overIgs = true
+				}
+			}
+			e, _ := errResult(call)
+			isNil, nonNil := nilTestEdges(e)
+			errOK := len(nonNil) > 0
+			for _, ed := range nonNil {
+				if g, _ := errorArmLeaves(cm, ed, isNil, nil); !g {
+					errOK = false
+				}
+			}
+			okAll = overIgs && !conditionalSite(cm, call) && errOK
+		}
+		c.Check("R16.4", "config.Migrate/every-integration", cm.Pos(), okAll, "Table.Migrate is called for every element of conf.Integrations, unconditionally, and its error is returned")
 		// union
 		un := w.Fn("shovel/config", "union")
 		okUnion := false
